@@ -12,6 +12,7 @@ import (
 	"runtime"
 	"sort"
 	"strings"
+	"sync"
 	"time"
 
 	"github.com/fatih/color"
@@ -93,6 +94,18 @@ type LinterOptions struct {
 	// More options will come here
 }
 
+// syncWriter serializes writes to the underlying writer.
+type syncWriter struct {
+	mu sync.Mutex
+	w  io.Writer
+}
+
+func (s *syncWriter) Write(p []byte) (int, error) {
+	s.mu.Lock()
+	defer s.mu.Unlock()
+	return s.w.Write(p)
+}
+
 // Linter is struct to lint workflow files.
 type Linter struct {
 	projects       *Projects
@@ -136,7 +149,9 @@ func NewLinter(out io.Writer, opts *LinterOptions) (*Linter, error) {
 
 	var lout io.Writer = io.Discard
 	if opts.LogWriter != nil {
-		lout = opts.LogWriter
+		// LintFiles writes logs from one goroutine per file. The given writer (e.g. bytes.Buffer)
+		// may not be safe for concurrent use
+		lout = &syncWriter{w: opts.LogWriter}
 	}
 
 	var cfg *Config
@@ -202,8 +217,8 @@ func (l *Linter) log(args ...interface{}) {
 	if l.logLevel < LogLevelVerbose {
 		return
 	}
-	fmt.Fprint(l.logOut, "verbose: ")
-	fmt.Fprintln(l.logOut, args...)
+	// Write one line at once so that lines from files linted in parallel are not mixed
+	fmt.Fprintln(l.logOut, append([]interface{}{"verbose:"}, args...)...)
 }
 
 func (l *Linter) debug(format string, args ...interface{}) {
